@@ -6,6 +6,8 @@
 #include <map>
 #include <memory>
 #include <mutex>
+#include <variant>
+#include <vector>
 
 #include "orange/OrangeInput.hh"
 #include "orange/OrangeParams.hh"
@@ -24,6 +26,32 @@ struct Entry
     std::shared_ptr<celeritas::GeoParams const> geo;
     std::shared_ptr<verif::refloc::RefLocator const> locator;
 };
+
+// A unit that lists the same surface twice (lead-box.org.json: the box and the world share
+// all six planes, so the "world" is an empty point set) is not a valid definition for a
+// point-location oracle: the side of the shared planes a point is on does not decide its
+// volume. The C05 volume monitor then falls back to the material map alone.
+bool has_duplicate_surfaces(celeritas::OrangeInput const& inp)
+{
+    for (auto const& uni : inp.universes)
+    {
+        auto const* u = std::get_if<celeritas::UnitInput>(&uni);
+        if (!u)
+            continue;
+        std::vector<std::pair<std::size_t, std::vector<double>>> sd;
+        for (auto const& s : u->surfaces)
+        {
+            std::vector<double> data;
+            std::visit([&data](auto const& ss) { for (auto v : ss.data()) data.push_back(v); }, s);
+            sd.emplace_back(s.index(), std::move(data));
+        }
+        for (std::size_t i = 0; i < sd.size(); ++i)
+            for (std::size_t j = i + 1; j < sd.size(); ++j)
+                if (sd[i] == sd[j])
+                    return true;
+    }
+    return false;
+}
 
 Entry const& load_entry(std::string const& key)
 {
@@ -59,7 +87,8 @@ Entry const& load_entry(std::string const& key)
             std::ifstream in(path);
             celeritas::OrangeInput inp;
             in >> inp;
-            e.locator = std::make_shared<verif::refloc::RefLocator>(inp);
+            if (!has_duplicate_surfaces(inp))
+                e.locator = std::make_shared<verif::refloc::RefLocator>(inp);
         }
         catch (std::exception const&)
         {
